@@ -273,16 +273,16 @@ func (s *scriptReader) Read(p []byte) (int, error) {
 	return n, nil
 }
 
-func exec(op string) string {
-	f := strings.Fields(op)
-	if len(f) > 0 && f[0] == "rsp" {
-		return execRsp(f)
-	}
+// convert runs one `doh` request through the real RequestToDnsMsg and returns a closure that renders the result LATER:
+// the returned *dns.Msg is kept as it is (it is what dnsFetcher packs and forwards afterwards), the request's own
+// buffers are scribbled over after the conversion, and the summary (incl. Pack) is taken when `late()` is called.
+func convert(f []string) (late func() string) {
+	fixed := func(s string) func() string { return func() string { return s } }
 	if len(f) == 8 {
 		f = append(f, "-")
 	}
 	if len(f) != 9 || f[0] != "doh" {
-		return "bad-op"
+		return fixed("bad-op")
 	}
 	method := f[1]
 	if method == "-" {
@@ -294,7 +294,7 @@ func exec(op string) string {
 		for _, v := range strings.Split(f[2], ",") {
 			b, ok := vh.UnHex(v)
 			if !ok {
-				return "bad-op"
+				return fixed("bad-op")
 			}
 			q.Add("dns", string(b))
 		}
@@ -303,33 +303,68 @@ func exec(op string) string {
 	ra, ok1 := ipOf(f[4])
 	ca, ok2 := ipOf(f[5])
 	if !ok || !ok1 || !ok2 {
-		return "bad-op"
+		return fixed("bad-op")
 	}
 	w := body
 	if f[6] != "=" {
 		if w, ok = vh.UnHex(f[6]); !ok {
-			return "bad-op"
+			return fixed("bad-op")
 		}
 	}
 	if oracle(w) != f[7] {
-		return "bad-oracle"
+		return fixed("bad-oracle")
 	}
+	body = append([]byte(nil), body...)
 	rd, ok := newScriptReader(body, f[8])
 	if !ok {
-		return "bad-op"
+		return fixed("bad-op")
 	}
 	hr := &bfe_http.Request{Method: method, URL: &url.URL{Path: "/dns-query", RawQuery: q.Encode()},
 		Body: rd, Header: bfe_http.Header{}}
 	req := &bfe_basic.Request{HttpRequest: hr, RemoteAddr: ra, ClientAddr: ca}
 	m, err := mod_doh.RequestToDnsMsg(req)
-	res := "err"
-	if err == nil {
-		res = summary(m)
+	// the request is gone: its buffers are reused by whoever comes next
+	for i := range body {
+		body[i] = 0xA5
 	}
+	hr.URL.RawQuery = ""
+	sfx := ""
 	if method == "POST" {
-		res += fmt.Sprintf(" lim=%d", mod_doh.VerifMaxPostMsgLength())
+		sfx = fmt.Sprintf(" lim=%d", mod_doh.VerifMaxPostMsgLength())
 	}
-	return res
+	return func() string {
+		if err != nil {
+			return "err" + sfx
+		}
+		return summary(m) + sfx
+	}
+}
+
+// op `bat <doh op>;<doh op>;...` : all requests are converted first (the messages are held, as concurrent requests
+// waiting for their upstream exchange are), then every held message is summarised / packed; result = the single
+// results joined by `;`.
+func execBatch(op string) string {
+	subs := strings.Split(strings.TrimPrefix(op, "bat "), ";")
+	var lates []func() string
+	for _, s := range subs {
+		lates = append(lates, convert(strings.Fields(s)))
+	}
+	var out []string
+	for _, l := range lates {
+		out = append(out, l())
+	}
+	return strings.Join(out, ";")
+}
+
+func exec(op string) string {
+	if strings.HasPrefix(op, "bat ") {
+		return execBatch(op)
+	}
+	f := strings.Fields(op)
+	if len(f) > 0 && f[0] == "rsp" {
+		return execRsp(f)
+	}
+	return convert(f)()
 }
 
 // ---- generation
@@ -417,7 +452,25 @@ func genMsg(r *vh.Rand) (*dns.Msg, bool) {
 			o.SetDo()
 		}
 		if r.Chance(1, 2) {
-			o.Option = append(o.Option, &dns.EDNS0_PADDING{Padding: make([]byte, pick(r, 0, 1, 31, 100, 300))})
+			pad := make([]byte, pick(r, 0, 1, 31, 48, 100, 300))
+			if r.Bool() {
+				copy(pad, r.Bytes(len(pad)))
+			}
+			o.Option = append(o.Option, &dns.EDNS0_PADDING{Padding: pad})
+		}
+		if r.Chance(1, 5) { // options whose data miekg's Unpack keeps as a slice of the input buffer
+			switch r.Intn(5) {
+			case 0:
+				o.Option = append(o.Option, &dns.EDNS0_DAU{Code: dns.EDNS0DAU, AlgCode: r.Bytes(r.Range(1, 6))})
+			case 1:
+				o.Option = append(o.Option, &dns.EDNS0_DHU{Code: dns.EDNS0DHU, AlgCode: r.Bytes(r.Range(1, 4))})
+			case 2:
+				o.Option = append(o.Option, &dns.EDNS0_N3U{Code: dns.EDNS0N3U, AlgCode: r.Bytes(r.Range(1, 3))})
+			case 3:
+				o.Option = append(o.Option, &dns.EDNS0_LOCAL{Code: uint16(pick(r, 65001, 65100, 65534)), Data: r.Bytes(r.Range(0, 20))})
+			case 4:
+				o.Option = append(o.Option, &dns.EDNS0_LOCAL{Code: uint16(pick(r, 20, 100, 4242)), Data: r.Bytes(r.Range(1, 12))}) // unknown code
+			}
 		}
 		if r.Chance(1, 4) {
 			o.Option = append(o.Option, &dns.EDNS0_COOKIE{Code: dns.EDNS0COOKIE, Cookie: fmt.Sprintf("%016x", r.U64())})
@@ -466,6 +519,17 @@ func gen(r *vh.Rand) string {
 	if r.Chance(1, 8) {
 		return genRsp(r)
 	}
+	if r.Chance(2, 5) { // a batch: 2..5 requests converted before any of the messages is packed
+		var subs []string
+		for i, n := 0, r.Range(2, 5); i < n; i++ {
+			subs = append(subs, genDoh(r))
+		}
+		return "bat " + strings.Join(subs, ";")
+	}
+	return genDoh(r)
+}
+
+func genDoh(r *vh.Rand) string {
 	method := "GET"
 	switch r.Intn(20) {
 	case 0:
